@@ -256,6 +256,10 @@ func (x *Exec) specCall(env *evalEnv, n *ast.CallExpr) (Val, bool) {
 			cs = append(cs, fmt.Sprintf("(forall ((%s Int)) (! (=> (and (< 0 %s) (< %s %s)) (= (select %s %s) (select %s %s))) :pattern ((select %s %s))))", r, r, r, env.old.alloc, h1, r, h0, r, h1, r))
 		}
 		return Val{and(cs...), tBool}, true
+	case "rune_count":
+		x.ctx.decl("fun:rune_count", "(declare-fun rune_count (Str) Int)")
+		a := x.expr(env, n.Args[0])
+		return Val{"(rune_count " + a.S + ")", tInt}, true
 	case "rune_at":
 		a := x.expr(env, n.Args[0])
 		i := x.expr(env, n.Args[1])
@@ -303,6 +307,10 @@ func (x *Exec) specCall(env *evalEnv, n *ast.CallExpr) (Val, bool) {
 			return Val{"(xlog_int " + a.S + " " + k.S + ")", tInt}, true
 		}
 		return Val{"(xlog_str " + a.S + " " + k.S + ")", tString}, true
+	case "typeis":
+		a := x.expr(env, n.Args[0])
+		t := x.resolveType(env, n.Args[1])
+		return Val{eq("(itag "+a.S+")", fmt.Sprint(x.ctx.TypeTag(t))), tBool}, true
 	case "iface_val":
 		a := x.expr(env, n.Args[0])
 		return Val{"(ival " + a.S + ")", tInt}, true
